@@ -40,7 +40,56 @@ func Add(A, B tensor.Tensor) (tensor.Tensor, error) {
 
 // Div divides 1 tensor by the other.
 func Div(A, B tensor.Tensor) (tensor.Tensor, error) {
-	return tensor.Div(A, B)
+	out, err := tensor.Div(A, B)
+	if err != nil {
+		return nil, err
+	}
+
+	if dtype := B.Dtype(); dtype != tensor.Float32 && dtype != tensor.Float64 {
+		return out, nil
+	}
+
+	// The tensor library answers every floating point division by zero with +Inf, whatever
+	// the numerator is. Redo those divisions, such that the signs of the operands are
+	// taken into account and 0/0 yields NaN.
+	iterator := B.Iterator()
+	iterator.Reset()
+
+	for !iterator.Done() {
+		coord := iterator.Coord()
+
+		divisor, err := B.At(coord...)
+		if err != nil {
+			return nil, err
+		}
+
+		numerator, err := A.At(coord...)
+		if err != nil {
+			return nil, err
+		}
+
+		switch d := divisor.(type) {
+		case float32:
+			if n, ok := numerator.(float32); ok && d == 0 {
+				err = out.SetAt(n/d, coord...)
+			}
+		case float64:
+			if n, ok := numerator.(float64); ok && d == 0 {
+				err = out.SetAt(n/d, coord...)
+			}
+		}
+
+		if err != nil {
+			return nil, err
+		}
+
+		_, err = iterator.Next()
+		if err != nil {
+			return nil, err
+		}
+	}
+
+	return out, nil
 }
 
 // Mul multiplies 2 tensors with each other.
